@@ -280,7 +280,8 @@ func (sr *scenRun) tamperOracle(e *endpoint, tRTP map[tkey]string, tAPP map[uint
 	// TCP: nothing may be missing. UDP may lose packets anywhere (legal); what an altered packet
 	// must not do is take its successors with it: the packets directly after an altered one must
 	// arrive (at most 10 % of them missing), and the receiver must not lose most of the stream.
-	bad := lost > 0
+	bad := int64(lost) > e.qfull.Load() // TCP: only signalled losses (write queue full)
+	run.Count("tamper:"+sc.Transport+":signalled-losses", e.qfull.Load())
 	if !reliable {
 		bad = afterTamperLost > 3+afterTamper/10 || lost > untampered/2
 		run.Count("tamper:udp:packets-right-after-a-tampered-one-lost", int64(afterTamperLost))
